@@ -21,6 +21,7 @@ type FuncVC struct {
 	ParamT   []types.Type
 	Results  [][2]string
 	Fn       *ssa.Function
+	Eng      *Engine // engine (build configuration) this function was loaded with
 }
 
 func (e *Engine) modeOf(ct *Contract) Mode {
@@ -62,7 +63,7 @@ func allocSlack(ct *Contract) (int64, bool) {
 // verifyFunc generates all obligations of one function under contract.
 func (e *Engine) verifyFunc(ct *Contract) (res *FuncVC) {
 	key := ct.PkgPath + "." + ct.Key
-	res = &FuncVC{Contract: ct, Key: key}
+	res = &FuncVC{Contract: ct, Key: key, Eng: e}
 	defer func() {
 		if r := recover(); r != nil {
 			res.Err = fmt.Sprintf("engine panic: %v", r)
